@@ -149,6 +149,7 @@ def translate(src, modname_map=None):
     i = 0
     mv_names = set()
     pending_coerce = None   # list to emit at the first body line of the current def
+    pending_ret = None
     while i < len(lines):
         ln = lines[i]
         s = ln.strip()
@@ -177,6 +178,13 @@ def translate(src, modname_map=None):
             sig = text[text.index('(') + 1: text.rindex(')')]
             coerce = []
             out.append(ind + 'def %s(%s):' % (name, _strip_sig(sig, coerce)))
+            mret = re.match(r'^cdef\s+(?:inline\s+)?(' + TYPE + r')\s+\w+\s*\(', s)
+            if mret:
+                # the C return type, as a marker statement for the Lean translator (a string statement is a no-op)
+                coerce = list(coerce)
+                pending_ret = mret.group(1)
+            else:
+                pending_ret = None
             pending_coerce = coerce
             mv_names = set(n for n, k in coerce if k == 'mv')
             i += 1; continue
@@ -194,6 +202,8 @@ def translate(src, modname_map=None):
                 continue
             for n, k in pending_coerce:
                 out.append(ind + '%s = %s(%s)' % (n, {'mv': '_mv', 'int': 'int', 'float': 'float'}[k], n))
+            if pending_ret:
+                out.append(ind + repr('__cdef_ret__ ' + pending_ret))
             pending_coerce = None
         # cdef declarations
         m = re.match(r'^cdef\s+(' + TYPE + r')\s+(.+)$', s)
@@ -205,6 +215,7 @@ def translate(src, modname_map=None):
                 name = name.strip()
                 if not re.match(r'^\w+$', name):
                     raise Untranslatable('cdef with several initialised names: ' + s)
+                out.append(ind + repr('__cdef__ %s : %s' % (t.replace(' ', ''), name)))
                 if '[' in t:
                     mv_names.add(name)
                     out.append(ind + '%s = _mv(%s)' % (name, expr.strip()))
@@ -216,7 +227,9 @@ def translate(src, modname_map=None):
                     raise Untranslatable('cdef declaration not understood: ' + s)
                 if '[' in t:
                     mv_names.update(names)
-                out.append(ind + 'pass')
+                # the declared C types, as a marker statement for the Lean translator (harness/py2lean.py
+                # compares them with the types it infers; a string statement is a no-op in Python)
+                out.append(ind + repr('__cdef__ %s : %s' % (t.replace(' ', ''), ' '.join(names))))
             i += 1; continue
         if s.startswith('cdef'):
             raise Untranslatable('unsupported cdef: ' + s)
